@@ -37,7 +37,7 @@ DEVS = {
 }
 
 
-BOLT_PATHS = ("QueryIds", "QueryIdsC", "QueryIdsC-again", "QueryWithCursorC", "IterateIds", "SortedScan")
+BOLT_PATHS = ("QueryIds", "QueryIdsC", "QueryIdsC-again", "QueryWithCursorC", "IterateIds", "SortedScan", "Child", "ChildExt")
 
 
 def probe_devs(ctx, bindir, paths):
@@ -139,7 +139,7 @@ def rand_module(seed, k):
             m = pick([N(x) for x in range(-2, 12)], 0.2)
             f = pick([F(x) for x in list(range(-4, 41)) + [5000000]], 0.2)
             b = pick([B(True), B(False)], 0.3)
-            t = pick([D(0), D(1), D(2), D(3), D(-1000)], 0.25)
+            t = pick([D(0), D(1), D(2), D(3), D(-1000), D(1000)], 0.25)
             roles = "{" + ", ".join(enc(x) for x in rng.sample(strs[:10], rng.randint(0, 3))) + "}"
             boss = '""' if rng.random() < 0.3 else '"%s"' % rng.choice(keys)
             peers = "{" + ", ".join('"%s"' % x for x in rng.sample(keys, rng.randint(0, min(3, nrows)))) + "}"
